@@ -174,12 +174,6 @@ def __setitem__(self, indx, arg):
                                     self._derivs_[key]._denom_,
                                     arg_deriv._denom_))
 
-    # A derivative that was broadcasted to this object's shape is read-only; it
-    # needs arrays of its own before it can be updated along with the object
-    for key, self_deriv in list(self._derivs_.items()):
-        if self_deriv._readonly_:
-            self.insert_deriv(key, self_deriv.copy(), override=True)
-
     # Create the values index
     if has_ellipsis and self._rank_:
         vals_index = pre_index + self._rank_ * (slice(None),)
@@ -235,6 +229,13 @@ def __setitem__(self, indx, arg):
         if np.shape(self._mask_):
             self._mask_ = self._mask_.copy() # copy; it might be shared
             self._mask_[selected] = arg_mask[antimask]
+
+    # A derivative that was broadcasted to this object's shape is read-only; it
+    # needs arrays of its own before it can be updated along with the object
+    # (only now: a rejected assignment has to leave the derivatives as they were)
+    for key, self_deriv in list(self._derivs_.items()):
+        if self_deriv._readonly_:
+            self.insert_deriv(key, self_deriv.copy(), override=True)
 
     self._cache_.clear()
 
